@@ -89,6 +89,7 @@ def evEff : Ev → Eff
   | .acquire | .wReacq | .depsReacq | .callReacq _ => .acq
   | .release | .wRelease | .depsRelease | .callRelease _ _ => .rel
   | .register k => .reg k
+  | .waiter k => .wait k
   | _ => .none
 
 /-- decompose `h : stepLocal F o x ev = some (y, eff)` into one goal per accepting branch -/
